@@ -234,17 +234,22 @@ def c13(ctx):
                   file_creations_checked_for_number_reuse=agg.n("c13_creates"),
                   exact_directory_checks=agg.n("c13_dir_checks"),
                   directory_checks_after_a_deletion=agg.n("c13_dir_checks_after_unlink"),
-                  iterators_with_unknown_pin_set=agg.n("c13_pin_unknown"))
+                  iterators_with_unknown_pin_set=agg.n("c13_pin_unknown"),
+                  log_unlinks_observed=agg.n("c13_log_unlinks"),
+                  log_unlinks_checked_against_the_manifest_prefix_written_before_them=agg.n("c13_log_unlinks_checked_against_manifest"),
+                  log_unlinks_unchecked=agg.n("c13_log_unlinks_unchecked") + agg.n("c13_log_unlinks_manifest_prefix_undecodable"))
     return runner.finish(
         "C13", "exploration", ctx.tier, ctx.seed, ctx.t0, agg,
         rule="histories with long-lived iterators across flushes/compactions/reopens; monitors over the libc-level "
-             "I/O trace (unlink vs iterator pin sets, unlink vs open output descriptors, file-number reuse) and exact "
+             "I/O trace (unlink vs iterator pin sets, unlink vs open output descriptors, file-number reuse, unlink of a "
+             "write-ahead log vs the log number recorded by the MANIFEST bytes written before it) and exact "
              "directory listing at quiescent points; distinct = (layout signature, deletion-since-last-check) states "
              "at which the directory was exactly the live set",
         evaluations=agg.n("c13_dir_checks") + agg.n("c13_table_unlinks"),
         distinct_nontrivial=agg.d("c13_dirstate"), extras=extras,
         floors=dict(unlinks=(agg.n("c13_table_unlinks"), 50), dir_checks_after_unlink=(agg.n("c13_dir_checks_after_unlink"), 10),
-                    unlinks_vs_iters=(agg.n("c13_unlinks_vs_live_iter"), 20)),
+                    unlinks_vs_iters=(agg.n("c13_unlinks_vs_live_iter"), 20),
+                    log_unlinks_checked=(agg.n("c13_log_unlinks_checked_against_manifest"), 100)),
         assumptions=["pin set of an iterator = tables listed by leveldb.sstables when it was created (used only when "
                      "the listing is identical immediately before and after creation)"])
 
@@ -336,7 +341,7 @@ def c02(ctx):
     if ctx.replay:
         return do_replay(ctx)
     if ctx.quick:
-        jobs = crash_jobs(ctx, "c02", 16, 100, 0, 1, 0) + crash_jobs(ctx, "c02", 8, 90, 0, 1, 0, first=300, writers=3)
+        jobs = crash_jobs(ctx, "c02", 16, 100, 0, 2, 6) + crash_jobs(ctx, "c02", 8, 90, 0, 1, 0, first=300, writers=3)
     else:
         jobs = crash_jobs(ctx, "c02", 96, 300, 0, 2, 20) + crash_jobs(ctx, "c02", 32, 240, 0, 1, 0, first=300, writers=3)
     agg = Agg().add(runner.run_jobs(jobs))
@@ -534,7 +539,7 @@ def c08(ctx):
     else:
         jobs = conc_jobs(ctx, 64, 600, native=0, variant=[0, 0, 1, 0, 2, 3, 4, 5], tag="c08") + \
             conc_jobs(ctx, 16, 150, native=1, variant=[0, 1, 2], first=1000000, tag="c08n") + \
-            enum_jobs(ctx, 0, 48, 2, 16, tag="c08")
+            enum_jobs(ctx, 0, 12, 2, 16, tag="c08")
     agg = Agg().add(runner.run_jobs(jobs))
     return runner.finish(
         "C08", "exploration", ctx.tier, ctx.seed, ctx.t0, agg,
@@ -562,7 +567,7 @@ def c09(ctx):
             enum_jobs(ctx, 100, 6, 1, 1, tag="c09") + enum_jobs(ctx, 106, 3, 2, 8, tag="c09")
     else:
         jobs = conc_jobs(ctx, 64, 800, native=0, variant=[2, 3, 4, 5, 6, 1, 0, 2], first=50000, tag="c09") + \
-            enum_jobs(ctx, 100, 48, 2, 16, tag="c09")
+            enum_jobs(ctx, 100, 12, 2, 16, tag="c09")
     agg = Agg().add(runner.run_jobs(jobs))
     return runner.finish(
         "C09", "exploration", ctx.tier, ctx.seed, ctx.t0, agg,
@@ -592,7 +597,7 @@ def c04(ctx):
         jobs = crash_jobs(ctx, "c04", 64, 150, 0, 2, 16) + \
             conc_jobs(ctx, 32, 600, native=0, variant=[0, 1], first=200000, tag="c04") + \
             conc_jobs(ctx, 8, 150, native=1, variant=[0, 1], first=2000000, tag="c04n") + \
-            enum_jobs(ctx, 200, 24, 2, 16, tag="c04")
+            enum_jobs(ctx, 200, 6, 2, 16, tag="c04")
     agg = Agg().add(runner.run_jobs(jobs))
     extras = crash_extras(agg)
     extras.update(conc_extras(agg))
